@@ -72,12 +72,27 @@ pub fn gen_c05_case(g: &mut G) -> Value {
     if let Some(o) = doc.as_object_mut() {
         o.retain(|k, _| k == "definitions" || k == "$schema");
     }
+    // a fixed length that only emerges from a conjunction of two array schemas
+    if g.chance(1, 4) {
+        let item = if g.chance(1, 2) { json!({"type": "integer"}) } else { json!({"type": "string"}) };
+        let n = 2 + g.below(2) as u64;
+        let lower = g.below(n as usize) as u64;
+        let mut a = json!({"type": "array", "items": item, "minItems": lower});
+        let mut b = json!({"type": "array", "minItems": n, "maxItems": n});
+        if g.chance(1, 3) {
+            a["maxItems"] = json!(n + 1 + g.below(2) as u64);
+        }
+        if g.chance(1, 2) {
+            std::mem::swap(&mut a, &mut b);
+        }
+        doc["definitions"]["ConjoinedLength"] = json!({"allOf": [a, b]});
+    }
     let names = gs::def_names(&doc);
     let mut roots = vec![];
     let mut probes = vec![];
     for (ri, n) in names.iter().enumerate() {
         roots.push(RootSel::Ref { r: format!("#/definitions/{n}") });
-        let schema = doc["definitions"][n].clone();
+        let schema = conjoined_equivalent(&doc["definitions"][n]).unwrap_or_else(|| doc["definitions"][n].clone());
         let mut inst = Inst::new(&doc);
         for k in 0..5 {
             inst.boundary = k % 2 == 1;
@@ -108,6 +123,41 @@ pub fn gen_c05_case(g: &mut G) -> Value {
     probes.extend(conv);
     let case = Case { history: vec![Step::Root { doc }], roots, probes, extra: json!({"source": "E"}), ..Default::default() };
     gen::to_value(&case)
+}
+
+/// `allOf [array(items T, minItems a [, maxItems c]), array(minItems n, maxItems n)]` (either
+/// order) with a <= n <= c denotes the fixed-length array `[T; n]`.
+pub fn conjoined_equivalent(s: &Value) -> Option<Value> {
+    let o = s.as_object()?;
+    if o.len() != 1 {
+        return None;
+    }
+    let bs = o.get("allOf")?.as_array()?;
+    if bs.len() != 2 {
+        return None;
+    }
+    let (a, b) = if bs[0].get("items").is_some() { (&bs[0], &bs[1]) } else { (&bs[1], &bs[0]) };
+    let (ao, bo) = (a.as_object()?, b.as_object()?);
+    if !ao.keys().all(|k| matches!(k.as_str(), "type" | "items" | "minItems" | "maxItems")) || !bo.keys().all(|k| matches!(k.as_str(), "type" | "minItems" | "maxItems")) {
+        return None;
+    }
+    if ao.get("type") != Some(&json!("array")) || bo.get("type") != Some(&json!("array")) {
+        return None;
+    }
+    let item = ao.get("items")?;
+    if item != &json!({"type": "integer"}) && item != &json!({"type": "string"}) {
+        return None;
+    }
+    let n = bo.get("minItems")?.as_u64()?;
+    if bo.get("maxItems")?.as_u64()? != n || n == 0 || n > 4 {
+        return None;
+    }
+    let lo = ao.get("minItems")?.as_u64()?;
+    let hi = ao.get("maxItems").map(|m| m.as_u64()).unwrap_or(Some(u64::MAX))?;
+    if lo > n || hi < n {
+        return None;
+    }
+    Some(json!({"type": "array", "items": item, "minItems": n, "maxItems": n}))
 }
 
 fn has_constraints(s: &Value) -> bool {
@@ -173,7 +223,16 @@ impl Property for C05 {
             return false;
         }
         let Step::Root { doc } = &case.history[0] else { return false };
-        gs::doc_in_enforced(doc)
+        // the conjoined-length definition is judged through the array it denotes
+        let mut doc = doc.clone();
+        if let Some(defs) = doc.get_mut("definitions").and_then(|d| d.as_object_mut()) {
+            for (_, d) in defs.iter_mut() {
+                if let Some(eq) = conjoined_equivalent(d) {
+                    *d = eq;
+                }
+            }
+        }
+        gs::doc_in_enforced(&doc)
     }
     fn judge(&self, case_v: &Value, unit: &Unit, compile: &CompileStatus, probes: &[ProbeResult], py: &mut Py) -> Result<Judged, String> {
         let mut j = Judged::default();
